@@ -40,6 +40,11 @@ THEOREMS = [
         "ap_mono_threshold_ext", "aph_mono_threshold_ext", "map_mono_threshold_ext", "frame_map_mono_threshold_ext",
         # for the code's decision tables (harness/dt_match.py)
         "table_isResultCorrect_mono", "table_status_tp_mono",
+        # appended: the looser run returns whenever the tighter one does (valid looser thresholds); pass/fail accounting and
+        # composed pipeline; ALLOW_ANY instance; stored changes C08_J / C08_G refuted as defective model variants
+        "ap_mono_threshold_total", "map_mono_threshold_total", "frame_map_mono_threshold_total", "tp_fn_mono_total",
+        "looser_iou_invalid_raises", "passfail_tp_fn_mono", "passfail_frame_tp_fn_mono", "pipeline_tp_fn_mono",
+        "allow_any_instance", "tpMono_isResultCorrect", "mono_fails_C08J", "apMono_apOfKinds", "apMono_fails_C08G",
     ]
 ] + (
     ["PEval.KernelBetter.better_table_check", "PEval.KernelBetter.better_code_table_eq_model", "PEval.KernelBetter.better_eq_skeleton", "PEval.KernelBetter.better_code_table_eq_isBetterThan", "PEval.KernelBetter.better_code_table_eq_isBetterThan_matcher", "PEval.KernelBetter.table_distance_direction", "PEval.KernelBetter.table_iou_direction", "PEval.KernelBetter.table_equal_not_better", "PEval.KernelBetter.table_none_not_better", "PEval.KernelBetter.table_better_mono"]
